@@ -1,3 +1,8 @@
 import Driver.Ver
 import Driver.Rx
+import Driver.Spec
 import Driver.Names
+
+/-- every driver operation; each model area contributes its own table -/
+def allDriverOps : List (String × (List String → String)) :=
+  DriverVer.ops ++ DriverRx.ops ++ DriverSpec.ops ++ DriverNames.ops
